@@ -212,6 +212,15 @@ Proof.
   - unfold bound_addrs in *. cbn [p_id p_addrs p_conn] in *. rewrite H. reflexivity.
 Qed.
 
+(* the literal "every record is cut to 8 KiB" fails for an id larger than the limit *)
+Lemma bound_addrs_huge_id :
+  exists p, accounted_size (bound_addrs p) > MaxPeerRecordSize /\ p_addrs (bound_addrs p) = [].
+Proof.
+  exists {| p_id := {| b_tag := 1%N; b_len := 9000 |};
+            p_addrs := [{| a_tag := 2%N; a_len := 8; a_ok := true |}]; p_conn := 0 |}.
+  split; vm_compute; reflexivity.
+Qed.
+
 (* what boundPeerRecordAddrs counts is at least what proto.Size reports *)
 Lemma proto_size_le_accounted p :
   0 <= b_len (p_id p) -> proto_size_peer p <= accounted_size p.
@@ -222,6 +231,18 @@ Proof.
   { unfold conn_field_size. pose proof (size_tag_pos peerConnectionField).
     pose proof (size_varint_pos (u64_of_i32 (p_conn p))). lia. }
   destruct (b_len (p_id p) =? 0); destruct (p_conn p =? 0); lia.
+Qed.
+
+Lemma bound_addrs_le_8k p :
+  (0 <= b_len (p_id p) <= 8178 -> - 2 ^ 31 <= p_conn p < 2 ^ 31 ->
+     accounted_size (bound_addrs p) <= MaxPeerRecordSize) /\
+  (accounted_size (bound_addrs p) <= MaxPeerRecordSize \/ p_addrs (bound_addrs p) = []) /\
+  (0 <= b_len (p_id p) -> proto_size_peer (bound_addrs p) <= accounted_size (bound_addrs p)).
+Proof.
+  split; [|split].
+  - intros Hid Hc. exact (bound_addrs_size_guarded p (base_size_fits _ _ Hid Hc)).
+  - exact (bound_addrs_size p).
+  - intro Hid. exact (proto_size_le_accounted (bound_addrs p) Hid).
 Qed.
 
 (* ---- ingress ----------------------------------------------------------- *)
